@@ -18,8 +18,15 @@ use crate::Args;
 use core::num::NonZeroU8;
 use embassy_time::Instant;
 use rs_matter::im::subscriptions::{ReportContext, Subscriptions, SubscriptionsBuffers, VerifItem, VerifSub};
+use rs_matter::error::Error;
 use rs_matter::im::IMBuffer;
+use rs_matter::persist::{KvBlobStore, PERSISTENT_SUBSCRIPTIONS_START};
+use rs_matter::tlv::TLVElement;
 use rs_matter::utils::storage::pooled::{Buffers, PooledBuffers};
+
+/// system-level stream: the real reporter / responder tasks on the simulated network
+#[path = "c13_sys.rs"]
+mod sys;
 
 const POOL: usize = 6;
 type Pool = PooledBuffers<IMBuffer, POOL>;
@@ -41,7 +48,7 @@ fn probes() -> Vec<(u16, u32, u32)> {
 
 fn r_sub(s: &VerifSub) -> String {
     format!(
-        "{},{},{},{},{},{},{},{},{},{}",
+        "{},{},{},{},{},{},{},{},{},{},{}",
         s.id,
         s.fab_idx,
         s.peer_node_id,
@@ -51,7 +58,8 @@ fn r_sub(s: &VerifSub) -> String {
         s.retry_at,
         s.fail_count,
         s.max_seen_attr_change_id,
-        s.max_seen_event_number
+        s.max_seen_event_number,
+        s.resumed_at
     )
 }
 
@@ -63,11 +71,60 @@ fn join_or(v: Vec<String>) -> String {
     }
 }
 
+/// number of boots a case can go through (tables are allocated up front: the report contexts
+/// borrow them)
+const BOOTS: usize = 4;
+
+/// the retained key-value store: it survives a `restart`
+#[derive(Default)]
+struct MemKv(std::collections::BTreeMap<u16, Vec<u8>>);
+
+impl KvBlobStore for MemKv {
+    fn load<'b>(&mut self, key: u16, buf: &'b mut [u8]) -> Result<Option<&'b [u8]>, Error> {
+        match self.0.get(&key) {
+            None => Ok(None),
+            Some(v) => {
+                let n = v.len().min(buf.len());
+                buf[..n].copy_from_slice(&v[..n]);
+                Ok(Some(&buf[..n]))
+            }
+        }
+    }
+
+    fn store(&mut self, key: u16, data: &[u8], _buf: &mut [u8]) -> Result<(), Error> {
+        self.0.insert(key, data.to_vec());
+        Ok(())
+    }
+
+    fn remove(&mut self, key: u16, _buf: &mut [u8]) -> Result<(), Error> {
+        self.0.remove(&key);
+        Ok(())
+    }
+}
+
+/// `fab,peer,min,max,id` of one persisted record (context tags 0..3 and 5 of `PersistedSubscription`)
+fn r_rec(data: &[u8]) -> String {
+    let e = TLVElement::new(data);
+    let f = |tag: u8| -> String {
+        e.structure()
+            .and_then(|s| s.find_ctx(tag))
+            .and_then(|x| x.u64())
+            .map(|v| v.to_string())
+            .unwrap_or_else(|_| "?".into())
+    };
+    format!("{},{},{},{},{}", f(0), f(1), f(2), f(3), f(5))
+}
+
 struct Runner<'a, 's, const N: usize> {
+    pools: &'a [Box<Pool>],
+    tables: &'s [Box<Subscriptions<N>>],
+    all_bufs: &'s [Box<SubscriptionsBuffers<'a, Pool, N>>],
+    boot: usize,
     pool: &'a Pool,
     subs: &'s Subscriptions<N>,
     bufs: &'s SubscriptionsBuffers<'a, Pool, N>,
     ctxs: Vec<(u32, ReportContext<'a, 's, Pool, N>)>,
+    kv: MemKv,
     dead: bool,
     /// generator-visible facts
     last_table: Vec<VerifSub>,
@@ -109,13 +166,22 @@ impl<'a, 's, const N: usize> Runner<'a, 's, N> {
             })
             .collect();
         cx.sort();
+        // the persisted records, slot by slot up to the first empty one (what `load_persist` reads)
+        let mut recs = Vec::new();
+        for slot in 0..64u16 {
+            match self.kv.0.get(&(PERSISTENT_SUBSCRIPTIONS_START + slot)) {
+                Some(v) => recs.push(r_rec(v)),
+                None => break,
+            }
+        }
         format!(
-            "{} | {} | {} | {} | {}",
+            "{} | {} | {} | {} | {} | {}",
             counters,
             reporting,
             join_or(table),
             join_or(entries),
-            join_or(cx.into_iter().map(|x| x.1).collect())
+            join_or(cx.into_iter().map(|x| x.1).collect()),
+            join_or(recs)
         )
     }
 
@@ -198,6 +264,7 @@ impl<'a, 's, const N: usize> Runner<'a, 's, N> {
                         match w.get(2).copied().unwrap_or("drop") {
                             "keep" => c.set_keep(),
                             "retry" => c.set_keep_retry(),
+                            "unsent" => c.set_keep_unsent(),
                             _ => {}
                         }
                         drop(c);
@@ -224,6 +291,38 @@ impl<'a, 's, const N: usize> Runner<'a, 's, N> {
                 format!("{}", r)
             }
             "nra" => format!("{}", self.subs.verif_next_report_at(num(1), self.bufs).as_ticks()),
+            "persist" => {
+                let mut buf = [0u8; 4096];
+                match self.subs.verif_persist_all(self.bufs, &mut self.kv, &mut buf) {
+                    Ok(()) => "ok".into(),
+                    Err(e) => format!("err {:?}", e.code()),
+                }
+            }
+            "restart" => {
+                if self.boot + 1 >= BOOTS {
+                    return "norestart".into();
+                }
+                // the tasks are gone with their report contexts; the old table is abandoned
+                for c in self.ctxs.drain(..) {
+                    std::mem::forget(c);
+                }
+                self.boot += 1;
+                self.pool = &self.pools[self.boot];
+                self.subs = &self.tables[self.boot];
+                self.bufs = &self.all_bufs[self.boot];
+                let mut buf = [0u8; 4096];
+                match self.subs.verif_load_persist(
+                    self.pool,
+                    self.bufs,
+                    &mut self.kv,
+                    &mut buf,
+                    Instant::from_ticks(num(1)),
+                    num(2),
+                ) {
+                    Ok(()) => "ok".into(),
+                    Err(e) => format!("err {:?}", e.code()),
+                }
+            }
             _ => "badop".into(),
         }
     }
@@ -259,10 +358,23 @@ impl<'a, 's, const N: usize> Runner<'a, 's, N> {
 }
 
 fn with_runner<const N: usize, R>(f: impl FnOnce(&mut Runner<'_, '_, N>) -> R) -> R {
-    let pool: Box<Pool> = Box::new(Pool::new());
-    let bufs: Box<SubscriptionsBuffers<'_, Pool, N>> = Box::new(SubscriptionsBuffers::new());
-    let subs: Box<Subscriptions<N>> = Box::new(Subscriptions::new());
-    let mut r = Runner { pool: &pool, subs: &subs, bufs: &bufs, ctxs: Vec::new(), dead: false, last_table: Vec::new() };
+    let pools: Vec<Box<Pool>> = (0..BOOTS).map(|_| Box::new(Pool::new())).collect();
+    let all_bufs: Vec<Box<SubscriptionsBuffers<'_, Pool, N>>> =
+        (0..BOOTS).map(|_| Box::new(SubscriptionsBuffers::new())).collect();
+    let tables: Vec<Box<Subscriptions<N>>> = (0..BOOTS).map(|_| Box::new(Subscriptions::new())).collect();
+    let mut r = Runner {
+        pools: &pools,
+        tables: &tables,
+        all_bufs: &all_bufs,
+        boot: 0,
+        pool: &pools[0],
+        subs: &tables[0],
+        bufs: &all_bufs[0],
+        ctxs: Vec::new(),
+        kv: MemKv::default(),
+        dead: false,
+        last_table: Vec::new(),
+    };
     let out = f(&mut r);
     r.finish();
     out
@@ -304,6 +416,8 @@ fn gen_case<const N: usize>(id: u64, r: &mut Rng, thorough: bool, out: &mut Out)
         let mut saw_flight_change = false;
         let mut saw_report = false;
         let mut saw_purge = false;
+        let mut saw_restart = false;
+        let mut restarts = 0;
         let hot: Vec<(u16, u32, u32)> = (0..r.range(1, 4)).map(|_| (r.below(3) as u16, r.range(1, 3) as u32, r.below(4) as u32)).collect();
         let mins = [0u64, 0, 1, 1, 2, 5, 30];
         let maxs = [1u64, 2, 4, 10, 40, 60, 600, 65535];
@@ -388,9 +502,10 @@ fn gen_case<const N: usize>(id: u64, r: &mut Rng, thorough: bool, out: &mut Out)
                     let sid: u32 = rest.split_whitespace().next().and_then(|x| x.parse().ok()).unwrap_or(0);
                     step(run, out, format!("q {}", sid));
                     if r.chance(1, 2) {
-                        let mode = match r.below(10) {
+                        let mode = match r.below(12) {
                             0..=5 => "keep",
                             6..=8 => "retry",
+                            9..=10 => "unsent",
                             _ => "drop",
                         };
                         step(run, out, format!("fin {} {}", sid, mode));
@@ -423,16 +538,40 @@ fn gen_case<const N: usize>(id: u64, r: &mut Rng, thorough: bool, out: &mut Out)
                 };
                 step(run, out, format!("fin {} {}", sid, mode));
                 out.stat(&format!("fin_{}", mode), 1);
-            } else if k < 90 {
+            } else if k < 88 {
                 step(run, out, "purge".to_string());
                 saw_purge = true;
                 out.stat("op_purge", 1);
+            } else if k < 90 {
+                // the table is mirrored to the store (after a priming / a removal in `im.rs`), possibly
+                // while a subscription is outside the table
+                step(run, out, "persist".to_string());
+                out.stat("op_persist", 1);
+                if !open.is_empty() {
+                    out.stat("persist_with_flight", 1);
+                }
             } else if k < 93 {
                 step(run, out, format!("rm {} {}", r.range(1, 2), r.range(10, 12)));
                 out.stat("op_rm", 1);
-            } else if k < 97 {
+            } else if k < 96 {
                 step(run, out, format!("rmexp {}", t));
                 out.stat("op_rmexp", 1);
+            } else if k < 97 {
+                if restarts >= 2 {
+                    n_ops -= 1;
+                    continue;
+                }
+                restarts += 1;
+                if r.chance(3, 4) {
+                    step(run, out, "persist".to_string());
+                    out.stat("op_persist", 1);
+                }
+                // the monotonic clock starts again with the boot
+                t = r.range(0, 50) * HZ;
+                step(run, out, format!("restart {} {}", t, evwm));
+                out.stat("op_restart", 1);
+                out.stat("resumed_subscriptions", run.last_table.len() as u64);
+                saw_restart = true;
             } else {
                 step(run, out, format!("nra {}", evwm));
                 out.stat("op_nra", 1);
@@ -463,6 +602,9 @@ fn gen_case<const N: usize>(id: u64, r: &mut Rng, thorough: bool, out: &mut Out)
         if saw_flight_change {
             out.stat("cases_with_change_during_flight", 1);
         }
+        if saw_restart {
+            out.stat("cases_with_restart", 1);
+        }
         if saw_flight_change && saw_report && saw_purge {
             out.buf.push_str("#nt\n");
             true
@@ -482,9 +624,16 @@ fn gen_case<const N: usize>(id: u64, r: &mut Rng, thorough: bool, out: &mut Out)
 pub fn gen(a: &Args) -> String {
     let mut r = Rng::new(a.seed);
     let mut out = Out::default();
-    out.buf.push_str("#rule a case is one interleaving on a fresh real Subscriptions<N> table (N in 1..4) of attribute changes (hot paths, bursts overflowing the 16-entry table, wildcards), subscription adds whose priming context stays open, reporter report begins with their contexts kept open, keep/retry/drop endings, purges, removals by peer and by expiry, next_report_at queries, under a monotone clock with steps around the negotiated intervals; non-trivial = a change was recorded while a subscription was outside the table, a report was begun and a purge ran; distinct = by operation list\n");
+    out.buf.push_str("#rule a case is one interleaving on a fresh real Subscriptions<N> table (N in 1..4) of attribute changes (hot paths, bursts overflowing the 16-entry table, wildcards), subscription adds whose priming context stays open, reporter report begins with their contexts kept open, keep/retry/drop endings, purges, removals by peer and by expiry, next_report_at queries, persisting the table to a retained store and restarting the device on it (fresh table, load_persist), under a monotone clock with steps around the negotiated intervals; non-trivial = a change was recorded while a subscription was outside the table, a report was begun and a purge ran; distinct = by operation list; ");
+    out.buf.push_str(sys::RULE);
+    out.buf.push('\n');
     let n_cases = if a.thorough { 40000 } else { 4000 };
+    // development aid: `--only sys` skips the table-level cases
+    let only_sys = a.extra.get("only").map(|v| v == "sys").unwrap_or(false);
     for id in 0..n_cases {
+        if only_sys {
+            break;
+        }
         let mut cr = r.fork();
         match cr.below(8) {
             0 => gen_case::<1>(id, &mut cr, a.thorough, &mut out),
@@ -493,6 +642,7 @@ pub fn gen(a: &Args) -> String {
             _ => gen_case::<4>(id, &mut cr, a.thorough, &mut out),
         }
     }
+    sys::gen(&mut out, &mut r, a.thorough, n_cases);
     out.finish()
 }
 
@@ -500,7 +650,11 @@ pub fn replay(a: &Args) -> String {
     let text = std::fs::read_to_string(a.input.as_ref().expect("--in")).expect("read input");
     let mut out = Out::default();
     for c in parse_cases(&text) {
-        replay_case(&mut out, &c);
+        if c.kind.starts_with("sys") {
+            sys::replay_case(&mut out, &c);
+        } else {
+            replay_case(&mut out, &c);
+        }
     }
     out.finish()
 }
